@@ -26,6 +26,12 @@ Contracts (deal, on sidecar wrappers):
   ``parent_count`` itself equals the brute-force count.
 
 Oracle: ``harness.universe.brute_objects`` and the toy strategies' forward maps (validated against brute force in C07).
+
+Family: the searches of C07 (universe packs + C07's local packs) plus the packs defined here (``LOCAL_PACKS``), whose
+rules have parameter maps that are not the identity: unions in which a child drops a statistic that a sibling has
+non-zero on words of the same size (``ExpansionDropVanishing``: the skip test of the threshold walk decides), products
+whose factors track only their non-vanishing statistics, atoms under duplicate names (``SplitPrefix(local_names)``),
+and products with the non-atom factor first / between two atoms (compositions with a free first part).
 """
 import contextlib
 import json
@@ -41,12 +47,13 @@ import comb_spec_searcher.strategies.constructor.cartesian as _cartesian
 import comb_spec_searcher.strategies.constructor.disjoint as _disjoint
 import comb_spec_searcher.strategies.rule as _rule
 import harness.universe as _universe
-from comb_spec_searcher import CombinatorialSpecification
+from comb_spec_searcher import CombinatorialSpecification, StrategyPack
 from comb_spec_searcher.exception import InvalidOperationError
 from comb_spec_searcher.strategies.constructor import CartesianProduct, DisjointUnion
 from comb_spec_searcher.strategies.rule import EquivalencePathRule, Rule, VerificationRule
 from harness.c07 import ALL_PACKS, build_spec, family_jobs, family_starts, spec_key, supports_generation
 from harness.universe import *  # noqa: F401,F403
+from harness.universe import class_from_repr
 
 NPROC = 16
 COUNTS = Counter()
@@ -59,6 +66,45 @@ def _note(check, what):
     _LAST["check"] = check
     _LAST["what"] = what
     return False
+
+
+# --------------------------------------------------------------------------------------------------------------
+# packs added to the family of C07 (non-identity parameter maps, non-atom factors in non-last position)
+# --------------------------------------------------------------------------------------------------------------
+
+
+def _pack(name, initial, expansion):
+    return StrategyPack(initial_strats=initial, inferral_strats=[], expansion_strats=expansion,
+                        ver_strats=[StatAtomStrategy()], name=name)
+
+
+LOCAL_PACKS = {
+    # a child drops a statistic that vanishes on it while a sibling has it non-zero at the same size
+    "dropvanishing": lambda: _pack("dropvanishing", [RemoveFrontOfPrefix()], [[ExpansionDropVanishing()]]),
+    # ... and the factors of products track only their own statistics, atoms under duplicate names, non-atom first
+    "localnames": lambda: _pack("localnames", [SplitPrefix(pieces=1, rest_at=0, local_names=True)],
+                                [[ExpansionDropVanishing()]]),
+    # non-atom factor between two atoms / first (when the redundant front has one letter only)
+    "restmiddle": lambda: _pack("restmiddle", [SplitPrefix(pieces=2, rest_at=1), SplitPrefix(pieces=1, rest_at=0)],
+                                [[ExpansionStrategy()]]),
+}
+C08_PACKS = dict(ALL_PACKS)
+C08_PACKS.update(LOCAL_PACKS)
+# start classes added for the local packs (prefix of length 3: two atoms and a factor with a non-empty prefix)
+LOCAL_STARTS = [("aab", ["bb"], "ab", ("na",)), ("bab", ["bb", "aa"], "ab", ()), ("bba", ["ab"], "ab", ("nb", "na"))]
+
+
+def local_jobs(tier, seed):
+    starts = list(family_starts(tier, seed))
+    starts += [c for c in (Av(p, patts, al, False, st) for p, patts, al, st in LOCAL_STARTS) if c not in set(starts)]
+    return [{"start": repr(start), "pack": pack, "db": db} for start in starts for pack in LOCAL_PACKS
+            for db in RULEDBS]
+
+
+def build_spec(job):  # noqa: F811  (the C07 function, over the enlarged table of packs)
+    start = class_from_repr(job["start"])
+    spec = find_spec(start, C08_PACKS[job["pack"]](), RULEDBS[job["db"]](), max_expansion_time=20)
+    return start, spec
 
 
 # --------------------------------------------------------------------------------------------------------------
@@ -406,7 +452,7 @@ def run(tier, seed):
     nmax = 4 if tier == "quick" else 5
     nrule = 5 if tier == "quick" else 6
     budget = 3000 if tier == "quick" else 12000
-    jobs = [j for j in family_jobs(tier, seed) if j["pack"] not in NO_SAMPLING_PACKS]
+    jobs = [j for j in family_jobs(tier, seed) if j["pack"] not in NO_SAMPLING_PACKS] + local_jobs(tier, seed)
     ctx = multiprocessing.get_context("fork")
     with ctx.Pool(NPROC) as pool:
         # phase 1: search; the same specification is found under several packs / rule databases -> keep one job each
@@ -435,7 +481,10 @@ def run(tier, seed):
     nstarts = len(family_starts(tier, seed))
     return {
         "bound": (f"{nstarts} start classes x {len(ALL_PACKS) - len(NO_SAMPLING_PACKS)} packs x {len(RULEDBS)} rule "
-                  f"databases = {len(jobs)} searches, {sum(k is not None for k in keys)} specifications supporting "
+                  f"databases, plus ({nstarts} + {len(LOCAL_STARTS)} start classes with a prefix of length 3) x the "
+                  f"{len(LOCAL_PACKS)} local packs {sorted(LOCAL_PACKS)} (children dropping statistics that siblings "
+                  f"have non-zero at the same size; factors with local statistic names; non-atom factor first or "
+                  f"between two atoms) x {len(RULEDBS)} rule databases = {len(jobs)} searches, {sum(k is not None for k in keys)} specifications supporting "
                   f"sampling, {len(chosen)} distinct ones checked; exact distribution (complete decision tree) for ALL "
                   f"parameter vectors of possible_parameters(n), all n <= 3 and n <= {nmax} while the predicted number "
                   f"of leaves of a size stays <= {budget} (largest size reached per specification: "
